@@ -466,6 +466,41 @@ def replay_printers(fn, model):
                             detail='%s: observed %s; the statement requires %s (%d real calls tried, the first is the counter-model)' % (
                                 inp, bad[0], bad[1], len(seen)))
         return dict(confirmed=False, detail='the real printer satisfies the statement on the counter-model and on %d neighbouring inputs' % len(seen))
+    if fn == 'pretty_dict':
+        # the statement-level oracles of the bounded stand-ins of C10 / C11, on dicts chosen for what pretty_dict's contract speaks about:
+        # container keys, nested values, limits around the length, sorted keys, commented values at narrow widths
+        from pvf.bounded import c10, c11
+        tried = 0
+        exprs = ["{1: 10, 2: 20, 3: 30, 4: 40}", "{(1, 2, 3, 4, 5): 'v', 2: [1, 2, 3]}", "{'a': [1, 2, 3, 4], 'b': {1: 1, 2: 2, 3: 3}}",
+                 "{3: [1, 2, 3], 1: (4, 5, 6, 7), 2: {5: 5, 6: 6, 7: 7}}", "{frozenset([1, 2, 3]): 1, 7: 8}"]
+        for e in exprs:
+            for N in (1, 2, 3, None):
+                for srt in (False, True):
+                    if srt and ('frozenset' in e or "'a'" in e or '(1, 2' in e):
+                        continue
+                    tried += 1
+                    try:
+                        vs = c10.check_case(e, {'max_seq_len': N, 'sort_dict_keys': srt, 'width': 40})
+                    except Exception as ex:      # noqa
+                        continue
+                    vs = [v for v in vs if v['kind'] not in ('warning',)]
+                    if vs:
+                        v = vs[0]
+                        inp = 'pformat(%s, max_seq_len=%r, sort_dict_keys=%r, width=40)' % (e, N, srt)
+                        return dict(confirmed=True, input=inp, observed=str(v['observed'])[:300], required=str(v['expected'])[:300],
+                                    detail='%s: %s - observed %s; required %s' % (inp, v['kind'], str(v['observed'])[:200], str(v['expected'])[:200]))
+        for e in ["{'k': [1, [2, [3]]], 'z': 1}", "{5: [6, [7, {8: [9]}]], 10: (11, [12])}", "[{1: [2, [3, [4]]]}]"]:
+            spec = c11.parse_spec(e)
+            value = eval(c11.expr_of(spec), dict(c11.NS))
+            for rs in range(4):
+                n, vs = c11.check_commented(spec, value, [0, 1, 2, 3, None], rs)
+                tried += n
+                if vs:
+                    v = vs[0]
+                    inp = 'pformat(<%s with comment() around nested values, decoration seed %d>, %s)' % (e, rs, v['case']['kwargs'])
+                    return dict(confirmed=True, input=inp, observed=str(v['observed'])[:300], required=str(v['expected'])[:300],
+                                detail='%s: %s - the commented value is cut at another level than the uncommented one' % (inp, v['kind']))
+        return dict(confirmed=False, detail='the real printer satisfies the C10 / C11 oracles on %d dict cases' % tried)
     if fn in ('pretty_float', 'pretty_int', 'pretty_bool'):
         import prettyprinter
         vals = {'pretty_float': [float('inf'), float('-inf'), float('nan'), 1.5, -0.0, _SubFloat('inf'), _SubFloat('nan'), _SubFloat(2.5)],
